@@ -154,6 +154,8 @@ def base_scenarios():
                                                {"at": 50, "do": "change", "x": "unsucc"}, {"at": 60, "do": "change"}])
     mk("mixed-burst-coalesces", [reg(1, "a1", 1000, "NON"), {"at": 10, "do": "change", "xs": ["unsucc", ""]}, {"at": 20, "do": "change", "xs": ["", "ok", ""]},
                                  {"at": 30, "do": "change", "xs": ["last", ""]}, {"at": 40, "do": "change"}])
+    mk("explicit-burst-latest-wins", [reg(1, "a1", 1000, "NON"), reg(2, "a2", 2000), {"at": 10, "do": "change", "n": 3, "x": "ok"}, ack(2, 1, 12),
+                                      {"at": 20, "do": "change", "xs": ["", "ok"]}, ack(2, 2, 22)])
     mk("reset-to-non-notification", [reg(1, "a1", 1000, "NON"), {"at": 10, "do": "change"}, ack(1, 2, 15, "RST"), {"at": 20, "do": "change"}])
     mk("icmp-error-and-shutdown", [reg(1, "a1", 1000, "NON"), reg(2, "a2", 2000), reg(2, "b2", 2001, "NON"), {"at": 10, "do": "change"}, {"at": 15, "do": "err", "r": 2},
                                    {"at": 20, "do": "change"}, {"at": 30, "do": "shutdown"}, {"at": 40, "do": "change"}])
@@ -302,8 +304,8 @@ def work(rep, args):
         mc_confs = [dict(mr=1, nobs=2, chg=2, env=3, sil=2, maxt=4), dict(mr=1, nobs=1, chg=3, env=3, sil=2, maxt=4)]
         nsim, nrand = 150, 400
     else:
-        mc_confs = [dict(mr=1, nobs=2, chg=3, env=3, sil=2, maxt=4), dict(mr=1, nobs=1, chg=3, env=5, sil=3, maxt=6), dict(mr=2, nobs=1, chg=3, env=3, sil=3, maxt=8)]
-        nsim, nrand = 1500, 6000
+        mc_confs = [dict(mr=1, nobs=2, chg=3, env=3, sil=2, maxt=4), dict(mr=1, nobs=1, chg=3, env=4, sil=2, maxt=4), dict(mr=2, nobs=1, chg=3, env=3, sil=3, maxt=8)]
+        nsim, nrand = 1500, 5000
     phases = {}
     t0 = [time.time()]
 
